@@ -581,7 +581,9 @@ orc_x86_insn_output_asm (OrcCompiler *p, OrcX86Insn *xinsn)
       src_op[0] = 0;
       break;
     case ORC_X86_INSN_TYPE_REG_REGM:
-      sprintf(src_op, "%%%s, ", orc_x86_get_regname (operand1));
+      /* the encoder emits REX.W for size 8: name the 64-bit register then */
+      sprintf(src_op, "%%%s, ", xinsn->size == 8 ?
+          orc_x86_get_regname_64 (operand1) : orc_x86_get_regname (operand1));
       break;
     case ORC_X86_INSN_TYPE_REG8_REGM:
       sprintf(src_op, "%%%s, ", orc_x86_get_regname_8 (operand1));
@@ -730,7 +732,12 @@ orc_x86_insn_output_asm (OrcCompiler *p, OrcX86Insn *xinsn)
     case ORC_X86_INSN_TYPE_REG_REGM:
     case ORC_X86_INSN_TYPE_IMM8_MMX_REG_REV:
       if (xinsn->type == ORC_X86_RM_REG) {
-        sprintf(dst_op, "%%%s", orc_x86_get_regname (xinsn->dest));
+        /* as above: `mov %rsp, %rbp`, not `mov %esp, %ebp`, when size is 8 */
+        sprintf(dst_op, "%%%s",
+            (xinsn->opcode->type == ORC_X86_INSN_TYPE_REG_REGM &&
+             xinsn->size == 8) ?
+            orc_x86_get_regname_64 (xinsn->dest) :
+            orc_x86_get_regname (xinsn->dest));
       } else if (xinsn->type == ORC_X86_RM_MEMOFFSET) {
         sprintf(dst_op, "%d(%%%s)", xinsn->offset,
             orc_x86_get_regname_ptr (p, xinsn->dest));
